@@ -1686,12 +1686,11 @@ class DecayGroup(BaseDecayGroup, AmpBase):
         if deep == 0:
             yield None
         else:
-            old_chains_idx = self.chains_idx
-            for i in old_chains_idx:
-                self.set_used_chains([i])
-                for j in self.chains[i].factor_iteration(deep=deep - 1):
-                    yield self.chains[i], j
-            self.chains_idx = old_chains_idx
+            with self.keep_used_chains():
+                for i in list(self.chains_idx):
+                    self.set_used_chains([i])
+                    for j in self.chains[i].factor_iteration(deep=deep - 1):
+                        yield self.chains[i], j
 
     def get_amp(self, data):
         """
@@ -2066,11 +2065,19 @@ class DecayGroup(BaseDecayGroup, AmpBase):
         self.add_used_chains(idx_chains)
 
     @contextlib.contextmanager
+    def keep_used_chains(self):
+        """restore the chain selection and the not_full flag on exit, also when an exception is raised"""
+        old_idx, old_not_full = list(self.chains_idx), self.not_full
+        try:
+            yield
+        finally:
+            self.chains_idx, self.not_full = old_idx, old_not_full
+
+    @contextlib.contextmanager
     def temp_used_res(self, res):
-        old_idx = self.chains_idx
-        self.set_used_res(res)
-        yield
-        self.chains_idx = old_idx
+        with self.keep_used_chains():
+            self.set_used_res(res)
+            yield
 
     def add_used_chains(self, used_chains):
         for i in used_chains:
@@ -2091,13 +2098,12 @@ class DecayGroup(BaseDecayGroup, AmpBase):
         chains = list(self.chains)
         if combine is None:
             combine = [[i] for i in range(len(chains))]
-        o_used_chains = self.chains_idx
         weights = []
-        for i in combine:
-            self.set_used_res(i)
-            weight = self.sum_amp(data)
-            weights.append(weight)
-        self.set_used_chains(o_used_chains)
+        with self.keep_used_chains():
+            for i in combine:
+                self.set_used_res(i)
+                weight = self.sum_amp(data)
+                weights.append(weight)
         return weights
 
     def chains_particle(self):
@@ -2109,13 +2115,12 @@ class DecayGroup(BaseDecayGroup, AmpBase):
     def partial_weight_interference(self, data):
         chains = list(self.chains)
         combine = combinations(range(len(chains)), 2)
-        o_used_chains = self.chains_idx
         weights = {}
-        for i in combine:
-            self.set_used_chains(i)
-            weight = self.sum_amp(data)
-            weights[i] = weight
-        self.set_used_chains(o_used_chains)
+        with self.keep_used_chains():
+            for i in combine:
+                self.set_used_chains(i)
+                weight = self.sum_amp(data)
+                weights[i] = weight
         return weights
 
     def generate_phasespace(self, num=100000):
